@@ -19,7 +19,9 @@ Text == Place(NumAtomSeq[a], c)
 Init == a \in DOMAIN NumAtomSeq /\ c \in 0..3
 Next == FALSE /\ UNCHANGED <<a, c>>
 
-Case == LET x == Text r == ParseText(x) IN
+\* (bound variables force one evaluation of the text and of its parse; LET definitions are re-evaluated at each use)
+CaseOf(x, r) ==
   [t |-> x, ok |-> r.ok, why |-> r.why, at |-> r.i - 1, scope |-> FaultScope(x, r.why), v |-> r.v]
-Emit == CSVWrite("%1$s", <<ToJson(Case)>>, IOEnv.OUT)
+Case == CaseOf(Text, ParseText(Text))
+Emit == \A x \in {Text} : \A r \in {ParseText(x)} : CSVWrite("%1$s", <<ToJson(CaseOf(x, r))>>, IOEnv.OUT)
 =============================================================================
